@@ -48,13 +48,15 @@ def revcomp (alph : List Char) (s : Str) : Option Str := compAll alph s.reverse
 /-- every covered position exists on the parent (what the constructors check through `end <= len(parent)`) -/
 def within (P : Str) (l : Loc) : Bool := (bases l).all (fun p => decide (p < P.length))
 
+/-- the parent letters at the positions `B`, each complemented when reading the minus strand -/
+def readAt (P : Str) (alph : List Char) (st : Strand) (B : List Nat) : Option Str :=
+  match charsAt P B with
+  | none => none
+  | some cs => if st = .minus then compAll alph cs else some cs
+
 /-- **the property**: base-by-base image of the coordinate map -/
 def expectExtractLoc (P : Str) (alph : List Char) (l : Loc) : Option Str :=
-  if l.strand = .unstranded then none
-  else
-    match charsAt P (bases l) with
-    | none => none
-    | some cs => if l.strand = .minus then compAll alph cs else some cs
+  if l.strand = .unstranded then none else readAt P alph l.strand (bases l)
 
 def expectExtract (P : Str) (alph : List Char) : Location → Option Str
   | .single b s => expectExtractLoc P alph ⟨[b], s⟩
@@ -84,6 +86,12 @@ def optBind {α β} (o : Option α) (f : α → Option β) : Option β :=
   | some a => f a
   | none => none
 
+/-- the letters read by the location belong to the alphabet and none of them is `U`/`u` -/
+def involutiveLetters (P : Str) (alph : List Char) (loc : Loc) : Bool :=
+  match charsAt P (bases loc) with
+  | some cs => noU cs && (compAll alph cs).isSome
+  | none => false
+
 /-- `l.reverse_strand().extract_sequence()`:
     (a) it is the base-by-base image for the re-stranded location, and
     (b) for layouts that are not self-overlapping it is the reverse complement of the original location's
@@ -97,10 +105,7 @@ def okRevStrand (P : Str) (alph : List Char) (l : Location) (ans : Option Str) :
       if !within P loc then true
       else
         ans == expectExtract P alph (reverseLoc l) &&
-        (if nonOverlap loc.blocks && loc.strand.isDirectional &&
-              (match charsAt P (bases loc) with
-               | some cs => noU cs && (compAll alph cs).isSome     -- letters of the alphabet, none of them U/u
-               | none => false) then
+        (if nonOverlap loc.blocks && loc.strand.isDirectional && involutiveLetters P alph loc then
            ans == optBind (expectExtract P alph l) (revcomp alph)
          else true)
 
@@ -191,7 +196,7 @@ def runSteps (alph : List Char) : Str → List Step → Option (Str × Bool)
 structure ObjAns where
   data : Str
   par : Option (Option Strand × Option Location)
-  deriving Repr
+  deriving DecidableEq, Repr
 
 def insertChar (x : Char) : List Char → List Char
   | [] => [x]
